@@ -190,6 +190,31 @@ func runIntro(file []byte) {
 			}
 		}
 		e["atchunk"], e["atpage"], e["atpartial"] = atchunk, atpage, atpartial
+		// the same calls again on ONE reader that is left wherever the previous call left it (and first moved to an odd
+		// position): the answers may not depend on the reader's position or on earlier calls, and PageHeaders may not
+		// modify the FileMetaData it was given
+		rd := bytes.NewReader(file)
+		rd.Seek(int64(len(file)/3), 0)
+		seq := event{"err": ""}
+		m1, err := parquet.ReadMetaData(rd)
+		if err == nil {
+			h1, err1 := parquet.PageHeaders(m1, rd)
+			seq["metaafter"] = metaObsLib(m1)
+			m2, err2 := parquet.ReadMetaData(rd)
+			if err1 != nil || err2 != nil {
+				seq["err"] = errStr(err1) + errStr(err2)
+			} else {
+				h2, err3 := parquet.PageHeaders(m2, rd)
+				h3, err4 := parquet.PageHeaders(m1, rd)
+				seq["err"] = errStr(err3) + errStr(err4)
+				seq["meta2"], seq["hdrs1"], seq["hdrs2"], seq["hdrs3"] = metaObsLib(m2), hdrsLib(h1), hdrsLib(h2), hdrsLib(h3)
+				// the first list must still read the same after the later calls (no aliasing of reused buffers)
+				seq["hdrs1again"] = hdrsLib(h1)
+			}
+		} else {
+			seq["err"] = err.Error()
+		}
+		e["seq"] = seq
 	})
 	e["panic"] = pan
 	for _, k := range []string{"meta", "hdrs", "atchunk", "atpage", "atpartial"} {
